@@ -692,6 +692,22 @@ where
     }
 }
 
+#[cfg(feature = "verif")]
+impl<T, B, GTarget> NUTSChain<T, B, GTarget>
+where
+    T: Float,
+    B: AutodiffBackend,
+{
+    /// Verification hook: the adaptation state `(m, n_discard, epsilon, epsilon_bar, h_bar, mu)`.
+    pub fn verif_adapt_state(&self) -> (usize, usize, T, T, T, T) {
+        (self.m, self.n_discard, self.epsilon, self.epsilon_bar, self.h_bar, self.mu)
+    }
+    /// Verification hook: a copy of the chain's generator (to predict the draws of the next transition).
+    pub fn verif_rng(&self) -> SmallRng {
+        self.rng.clone()
+    }
+}
+
 #[allow(dead_code)]
 fn find_reasonable_epsilon<B, T, GTarget>(
     position: Tensor<B, 1>,
